@@ -256,6 +256,45 @@ fn exec(ctx: &mut Ctx, s: &mut S, op: &str) {
             catch(|| with_atomic(&mut s.a, |at| fmt_bools(at.iter()))).map(|x| format!("ok {}", x)),
             format!("ok {}", fmt_bools(s.oa.iter().copied())),
         ),
+        "it_nth" => {
+            // two successive `Iterator::nth` calls on the bit / ones / zeros iterator (the second
+            // possibly after an overshooting first one), then everything that is left
+            let (a, b): (usize, usize) = (t[2].parse().unwrap(), t[3].parse().unwrap());
+            fn two<T: Clone>(l: &[T], a: usize, b: usize) -> (Option<T>, Option<T>, Vec<T>) {
+                let x = l.get(a).cloned();
+                let l1 = &l[(a + 1).min(l.len())..];
+                let y = l1.get(b).cloned();
+                (x, y, l1[(b + 1).min(l1.len())..].to_vec())
+            }
+            fn run<T>(mut it: impl Iterator<Item = T>, a: usize, b: usize) -> (Option<T>, Option<T>, Vec<T>) {
+                let x = it.nth(a);
+                let y = it.nth(b);
+                (x, y, it.collect())
+            }
+            let fb = |x: Option<bool>| x.map(|x| b01(x).to_string()).unwrap_or("none".into());
+            let fu = |x: Option<usize>| x.map(|x| x.to_string()).unwrap_or("none".into());
+            match t[1] {
+                "bits" | "abits" => {
+                    let l: Vec<bool> = s.oa.clone();
+                    let (x, y, r) = two(&l, a, b);
+                    let o = format!("ok {} {} {}", fb(x), fb(y), fmt_bools(r));
+                    let g = if t[1] == "bits" {
+                        catch(|| run(s.a.iter(), a, b))
+                    } else {
+                        catch(|| with_atomic(&mut s.a, |at| run(at.iter(), a, b)))
+                    };
+                    (g.map(|(x, y, r)| format!("ok {} {} {}", fb(x), fb(y), fmt_bools(r))), o)
+                }
+                k => {
+                    let want = k == "ones";
+                    let l: Vec<usize> = s.oa.iter().enumerate().filter(|x| *x.1 == want).map(|x| x.0).collect();
+                    let (x, y, r) = two(&l, a, b);
+                    let o = format!("ok {} {} {}", fu(x), fu(y), fmt_list(r));
+                    let g = if want { catch(|| run(s.a.iter_ones(), a, b)) } else { catch(|| run(s.a.iter_zeros(), a, b)) };
+                    (g.map(|(x, y, r)| format!("ok {} {} {}", fu(x), fu(y), fmt_list(r))), o)
+                }
+            }
+        }
         "ones" => (
             catch(|| fmt_list(s.a.iter_ones())).map(|x| format!("ok {}", x)),
             format!(
@@ -805,8 +844,14 @@ fn gen_op(ctx: &mut Ctx, len: usize) -> String {
             format!("extend {}", gen_bits(ctx, n))
         }
         24 | 25 => "iter".into(),
-        26..=28 => "ones".into(),
-        29..=31 => "zeros".into(),
+        26 | 27 => "ones".into(),
+        29 | 30 => "zeros".into(),
+        28 | 31 => {
+            let kind = *ctx.rng.pick(&["bits", "abits", "ones", "zeros"]);
+            let mid = ctx.rng.usize_below(len + 1);
+            let a = *ctx.rng.pick(&[0, mid, mid / 2, len.saturating_sub(1), len, len + 70]);
+            format!("it_nth {} {} {}", kind, a, ctx.rng.usize_below(3))
+        }
         32 | 33 => "count_ones".into(),
         34 => "count_zeros".into(),
         35 => "eq".into(),
